@@ -162,6 +162,20 @@ def skip_compare(op, impl, model):
     return False
 
 
+def benign(pid, op, impl, model):
+    """Disagreements that cannot invalidate the transfer of the property's theorems to the code.
+    C02 (soundness of is_subset): the theorem is `model answers true ⇒ inclusion holds`; it transfers to the
+    code whenever `code answers true ⇒ model answers true`, so a code that is merely more conservative than
+    the model (false where the model says true) is not a broken correspondence for C02."""
+    if pid == "C02":
+        f = op.split("\t", 1)[0]
+        if f in ("subset", "superset") and impl == "false" and model == "true":
+            return True
+        if f == "supersetchk" and impl == "ok false" and model == "ok true":
+            return True
+    return False
+
+
 def nontrivial(pid, op, res):
     f = op.split("\t")
     if any("(" in x for x in f[1:]):
